@@ -276,6 +276,10 @@ func runC20(w *core.World, r *core.Report) {
 					continue
 				}
 			}
+			if !isDefer && behindFlagUnsetInCallers(w, fn, fTerm) {
+				r.OK("R4", key, c.Pos(), "no-op: a helper whose every call site is only reached on the TERMINATE-unset edge")
+				continue
+			}
 			if rs := core.CallsTo(fn, "state.(*State).Restart"); len(rs) > 0 && !isDefer {
 				r.OK("R4", key, c.Pos(), "session restart")
 				continue
@@ -337,24 +341,25 @@ func runC20(w *core.World, r *core.Report) {
 	}
 	// ---- R6 -----------------------------------------------------------------------------------
 	if fin := anchor(w, r, "engine", "(*DefaultEngine).Finish"); fin != nil {
-		cut := core.NewCut()
 		nsave := 0
-		for _, c := range core.CallsTo(fin, "persist.(*Persister).Save") {
-			cut.AddInstr(c.(ssa.Instruction))
-			nsave++
-		}
-		for _, in := range allInstrs(fin) {
-			if v, ok := in.(ssa.Value); ok {
-				if _, f, ok := core.LoadedField(v); ok && f == "initd" {
-					cut.AddEdge(core.EdgesWhere(v, false)...)
+		cut := cutWithHelpers(w, fin, func(fn *ssa.Function, cut *core.Cut) {
+			for _, c := range core.CallsTo(fn, "persist.(*Persister).Save") {
+				cut.AddInstr(c.(ssa.Instruction))
+				nsave++
+			}
+			for _, in := range allInstrs(fn) {
+				if v, ok := in.(ssa.Value); ok && fn == fin {
+					if _, f, ok := core.LoadedField(v); ok && f == "initd" {
+						cut.AddEdge(core.EdgesWhere(v, false)...)
+					}
+				}
+				if bo, ok := in.(*ssa.BinOp); ok && (bo.Op == token.EQL || bo.Op == token.NEQ) && core.IsNilConst(bo.Y) {
+					if _, f, ok := core.LoadedField(bo.X); ok && f == "pe" {
+						cut.AddEdge(core.EdgesWhere(bo, bo.Op == token.EQL)...)
+					}
 				}
 			}
-			if bo, ok := in.(*ssa.BinOp); ok && (bo.Op == token.EQL || bo.Op == token.NEQ) && core.IsNilConst(bo.Y) {
-				if _, f, ok := core.LoadedField(bo.X); ok && f == "pe" {
-					cut.AddEdge(core.EdgesWhere(bo, bo.Op == token.EQL)...)
-				}
-			}
-		}
+		}, 2)
 		hit, path := core.Reach(core.Entry(fin), core.IsReturn, cut)
 		r.Check(hit == nil && nsave > 0, "R6", "engine.(*DefaultEngine).Finish: saves on every path of an initialised engine with a persister", fin.Pos(), "every return passes Save, initd==false or pe==nil",
 			"Finish can return without saving although the engine ran and has a persister: the restart written by a graceful end (or any other progress) is not stored, and the next request resumes the old position: "+w.PathString(path))
